@@ -5,6 +5,8 @@
 //   Frame: flags, sigversion, fRequireMinimal, allow_disabled_opcodes, opcode_pos, script bytes, pend, tapleaf hash unchanged.
 #pragma once
 int g_l1_calls; int g_tce_iter_calls; int g_tce_next_state; int g_tce_deleted;
+// ghost: the state the most recent step left (to state that callers do not post-process it)
+int g_l1_last_opcount; verif_stack g_l1_last_stack, g_l1_last_alt; size_t g_l1_last_cs_size; bool g_l1_last_cs_alltrue; int64_t g_l1_last_weight;
 bool StepScript(ScriptExecutionEnvironment& env, CScript::const_iterator& pc, CScript* local_script) {
     g_l1_calls = g_l1_calls + 1;
     CScript::const_iterator lim = env.pend;
@@ -22,6 +24,7 @@ bool StepScript(ScriptExecutionEnvironment& env, CScript::const_iterator& pc, CS
     __CPROVER_assume(adv >= 1 && adv <= (size_t)(lim - pc));
     pc += adv;
     if (nondet_bool()) env.pbegincodehash = pc;
+    g_l1_last_opcount = env.nOpCount; g_l1_last_stack = env.stack; g_l1_last_alt = env.altstack; g_l1_last_cs_size = env.vfExec.size(); g_l1_last_cs_alltrue = env.vfExec.all_true(); g_l1_last_weight = env.execdata.m_validation_weight_left;
     if (nondet_bool()) { verif_thrown = 1 + (int)(nondet_uint() % 3u); return false; }
     return nondet_bool();
 }
